@@ -440,6 +440,10 @@ def case_pitfall(ctx, cls, v, d, ny, nz, k, seeds, exact):
         F = make(ctx, "pitfall", cls, desc, g.PitfallFormula, v, d, ny, nz, k)
         if F is None:
             continue
+        if seed == seeds[0]:
+            # the pipe and tail gadgets have no reference of their own here: at least they do not depend on the interpreter's -O flag
+            S.same_in_optimized_interpreter(ctx, "pitfall", desc, "g.PitfallFormula(%d, %d, %d, %d, %d, formula_class=%s)" % (v, d, ny, nz, k, cls),
+                                            seed, F)
         at = S.decode(ctx, "pitfall", desc, F)
         if at is None:
             continue
